@@ -28,7 +28,14 @@ pub fn gen(seed: u64, tier: Tier, k: u64) -> Value {
             let mut rng = Rng::keyed(seed, "C14", k);
             let pkg = [Pkg::OneFile, Pkg::TwoFiles, Pkg::NoConcat][(k / 6 % 3) as usize];
             let n_extra = if rng.chance(1, 3) { rng.range(1, 2) as usize } else { 0 };
-            json!({"kind": "container", "case": gen_small(&mut rng, tier, pkg, n_extra, 9).to_json()})
+            // every fourth container is made with the low-level creators (loose files, or those joined by tools::concat):
+            // there every free-data field is the caller's
+            let how = match k / 6 % 8 {
+                3 => "loose",
+                7 => "loose-concat",
+                _ => "basic",
+            };
+            json!({"kind": "container", "how": how, "case": gen_small(&mut rng, tier, pkg, n_extra, 9).to_json()})
         }
     }
 }
@@ -108,6 +115,13 @@ pub fn run(desc: &Value, ctx: &Ctx) -> CaseOut {
                     if let Some(PackBody::Directory { stores, .. }) = v.directory_pack().map(|p| &p.body) {
                         out.obs.add("entries_decoded", stores.iter().map(|s| s.entries.len() as u64).sum());
                     }
+                    if let Some(dp) = v.directory_pack() {
+                        let want = pack_free(dc.free, "directory");
+                        out.obs.inc("free_data_comparisons");
+                        if dp.free != want {
+                            out.violate(json!({"kind": "decoded-free-data", "profile": profile()}), format!("C14: independent decoder: directory header free data decodes to {} but {} was given", util::brief(&dp.free), util::brief(&want)), json!({}));
+                        }
+                    }
                 }
             }
         }
@@ -119,10 +133,21 @@ pub fn run(desc: &Value, ctx: &Ctx) -> CaseOut {
             out.fp = fp.hex();
             out.nontrivial = true;
             out.obs.inc(&format!("containers.pkg.{}", cc.pkg.as_str()));
-            match create_container(&cc, &scratch.dir, "c.jbk", Arc::new(())) {
+            let how = jstr(desc, "how").to_string();
+            out.obs.inc(&format!("containers.made.{}", if how.is_empty() { "basic" } else { &how }));
+            let made = match how.as_str() {
+                "loose" => create_loose(&cc, &scratch.dir, &|_, f| f.to_string(), None),
+                "loose-concat" => create_loose(&cc, &scratch.dir, &|_, f| f.to_string(), Some("all.jbk")),
+                _ => create_container(&cc, &scratch.dir, "c.jbk", Arc::new(())),
+            };
+            match made {
                 Err(e) => out.inconclusive(format!("creation failed (C01/C02's concern): {e}")),
                 Ok(created) => {
                     let views = decode_files(&created.files);
+                    for d in compare_free(&cc, created.loose, &views) {
+                        out.violate(json!({"kind": "decoded-free-data", "profile": profile()}), format!("C14: independent decoder: {d}"), json!({}));
+                    }
+                    out.obs.inc("free_data_comparisons");
                     let mut dir_seen = false;
                     let mut content_seen = 0;
                     for (p, v) in &views {
